@@ -49,6 +49,15 @@ func init() {
 		if validFields(e) && e.Len() != len(b) {
 			c.R.Violation("bytes.len_eq", hin, ln, fmt.Sprint(len(b)), "Len() differs from the serialised length for a CR/LF-free valid UTF-8 event")
 		}
+		// … also for an event that was measured before and has grown since, and for a by-value copy of it
+		e.Params = append(e.Params, "one-more-parameter")
+		cp := *e
+		for _, ev := range []*girc.Event{e, &cp} {
+			if b2 := ev.Bytes(); ev.Len() < len(b2) {
+				c.R.Violation("bytes.len_ge_after_change", hin, fmt.Sprint(ev.Len()), fmt.Sprint(len(b2)), "Len() of an event measured earlier and extended since under-reports the serialised length")
+				break
+			}
+		}
 	}
 
 	// parse: impl ParseEvent vs model (both the functional and the index-faithful one); never panics.
@@ -220,6 +229,30 @@ func runC01(c *Ctx) {
 		if i < 3 {
 			r.Sample(map[string]string{"event": showEventReadable(e), "wire": q(string(e.Bytes()))})
 		}
+	}
+	// the same trip through a real connection: runs of serialised events written to the client's socket, neighbouring
+	// lines from senders that are the same identity in another spelling; what the handlers receive is the parse of the line
+	for i := 0; i < 6*c.Scale; i++ {
+		in := map[string]string{}
+		k := 0
+		for j := 0; j < 5; j++ {
+			e := c.Rng.wfEvent()
+			if e.Command == "PING" || strings.HasPrefix(e.Command, "CLIENT_") || e.Command == "ERROR" {
+				continue
+			}
+			for _, sp := range []func(string) string{func(x string) string { return x }, strings.ToUpper, strings.ToLower, func(x string) string { return x }} {
+				ee := e.Copy()
+				if ee.Source != nil {
+					ee.Source.Name = sp(ee.Source.Name)
+				}
+				in[fmt.Sprintf("l%d", k)] = string(ee.Bytes())
+				k++
+			}
+		}
+		in["n"] = fmt.Sprint(k)
+		c.run("wireparse", in)
+		r.Count("wire"+fmt.Sprint(in), true, "wire-trip")
+		r.Traces++
 	}
 	for i := 0; i < 1500*c.Scale; i++ {
 		in := map[string]string{}
@@ -489,6 +522,7 @@ func runC03(c *Ctx) {
 	r.Count("F3", true, "witness")
 	runC03Helpers(c)
 	runC03SlowPeer(c)
+	runC03SendWire(c)
 }
 
 func min(a, b int) int {
